@@ -578,12 +578,31 @@ func (s *Store) reapInternal() (int, int, error) {
 	// Collect all WAL files: from the full snapshot itself and from any
 	// incremental snapshots that follow it.
 	var walFiles []string
+	inputs := NewCRCChecker()
+	if full.dbFile != nil {
+		inputs.Add(full.dbFile)
+	}
 	for _, wf := range full.walFiles {
 		walFiles = append(walFiles, wf.Path)
+		inputs.Add(wf)
 	}
 	for _, snap := range newerSet.All() {
 		for _, wf := range snap.walFiles {
 			walFiles = append(walFiles, wf.Path)
+			inputs.Add(wf)
+		}
+	}
+
+	if len(walFiles) > 0 {
+		// The checkpoint below rewrites the full snapshot's DB file and then records
+		// a fresh CRC32 for the result. The recorded checksums of the files being
+		// consolidated are therefore the last chance to notice corruption that arose
+		// after the one-time verification above, so check them now.
+		if err := <-inputs.Check(); err != nil {
+			if s.fatalFn != nil {
+				s.fatalFn(err) // terminates the process in production; never returns
+			}
+			return 0, 0, err
 		}
 	}
 
